@@ -401,3 +401,158 @@ Definition ex_pair_check : bool :=
 Example C08_example_pair_ok : ex_pair_check = true.
 Proof. vm_compute. reflexivity. Qed.
 Print Assumptions C08_example_pair_ok.
+
+(* ---- 8. the VALUE of the network under the gates (TEBD/GateValue.v, over the semantic bridge of C02) -------------- *)
+(* net_value s tbl rho: the value of the whole network over any commutative semiring, for an atom table tbl, at
+   an assignment rho of indices to the open wires (TTN/InvSem.v).  wfsb: the extended executable invariant of C02.
+   gate_action dim G outw inw V rho = SUM_{j over the wires inw} G (rho(outw) ++ j) * V (rho[inw := j])
+   (sum_bnd of Wire/Sem.v): the action of a gate tensor G, axes = outputs then inputs, on a value function. *)
+From PTN Require Import Wire.Sem Wire.SemInst TTN.InvSem TEBD.GateValue.
+
+(* absorb_into_open_legs (what is new relative to C02: it CHANGES the value).  The operator is the fresh atom
+   ga = next_atom s, on (fresh output wires ++ the node's old open wires); the new network's value is the sum,
+   over the indices j of the old open wires, of  tbl ga (rho(new open wires) ++ j) * (old value at rho[old := j]);
+   the node's open legs become the fresh wires, everything else is untouched, the invariant is kept *)
+Theorem C08_absorb_value : forall (R : Type) (zero one : R) (add mul : R -> R -> R), comm_semiring zero one add mul ->
+  forall (tbl : nat -> list nat -> R) (s : store) (n : id) (gshape : list nat) (s' : store) (nd0 : node),
+  wfsb s = true -> aget n (nodes s) = Some nd0 -> absorb_open s n gshape = Some s' ->
+  let inw := open_of nd0 (tens s n) in
+  let outw := seq (next_wire s) (nopen nd0) in
+  let ga := next_atom s in
+  wfsb s' = true /\ atom_wires s' ga = outw ++ inw /\
+  aget n (nodes s') = Some (reset_permutation nd0) /\ open_of (reset_permutation nd0) (tens s' n) = outw /\
+  (forall k, k <> n -> aget k (nodes s') = aget k (nodes s) /\ aget k (tensors s') = aget k (tensors s)) /\
+  forall rho, net_value zero one add mul s' tbl rho
+              = sum_bnd R zero add (wdim s) inw
+                  (fun r => mul (tbl ga (map r (outw ++ inw))) (net_value zero one add mul s tbl r)) rho.
+Proof. exact absorb_value_stmt. Qed.
+Print Assumptions C08_absorb_value.
+
+Theorem C08_absorb_preserves_wfsb : forall (s : store) (n : id) (gshape : list nat) (s' : store),
+  wfsb s = true -> absorb_open s n gshape = Some s' -> wfsb s' = true.
+Proof. exact absorb_preserves_wfsb. Qed.
+Print Assumptions C08_absorb_preserves_wfsb.
+
+(* the single-site gate of TEBD (open_ws s k: the open wires of node k) *)
+Theorem C08_single_site_gate_value : forall (R : Type) (zero one : R) (add mul : R -> R -> R), comm_semiring zero one add mul ->
+  forall (tbl : nat -> list nat -> R) (s : store) (a : id) (gshape : list nat) (s' : store),
+  wfsb s = true -> absorb_open s a gshape = Some s' ->
+  let inw := open_ws s a in
+  let outw := seq (next_wire s) (length inw) in
+  let ga := next_atom s in
+  wfsb s' = true /\ akeys (nodes s') = akeys (nodes s) /\
+  open_ws s' a = outw /\ (forall k, k <> a -> open_ws s' k = open_ws s k) /\
+  atom_wires s' ga = outw ++ inw /\
+  forall rho, net_value zero one add mul s' tbl rho
+              = gate_action R zero add mul (wdim s) (tbl ga) outw inw (net_value zero one add mul s tbl) rho.
+Proof. exact single_site_gate_value_stmt. Qed.
+Print Assumptions C08_single_site_gate_value.
+
+(* the two-site gate (contract_nodes, absorb_into_open_legs, split_node_svd), either orientation of the pair, any
+   number of open legs per node: under the kernel contract of the final split — the two factors recorded in
+   last (defs s3) (C08_two_site_gate_diagram: U on node1's legs ++ bond, S.Vh on bond ++ node2's legs), summed over
+   the new bond, give back the tensor the kernel received, i.e. the contracted pair with the gate applied; nothing
+   truncated — the value of the network is the gate atom ga = next_atom s applied through the open wires of node1
+   then node2.  The gate's output wires (the next fresh wires, node1's first) are the new open wires of the pair;
+   every other node keeps its open wires; the temporary identifier is gone; the invariant is kept *)
+Theorem C08_two_site_gate_value : forall (R : Type) (zero one : R) (add mul : R -> R -> R), comm_semiring zero one add mul ->
+  forall (tbl : nat -> list nat -> R) (contr : id) (s : store) (a b : id) (g : tgate) (s1 s2 s3 : store),
+  wfsb s = true -> aget contr (nodes s) = None ->
+  two_site_stages contr s a b g = Some (s1, s2, s3) ->
+  def_holds zero one add mul s3 tbl (last (defs s3) dflt_def) ->
+  let inw := open_ws s a ++ open_ws s b in
+  let outw := seq (next_wire s) (length inw) in
+  let ga := next_atom s in
+  wfsb s3 = true /\ aget contr (nodes s3) = None /\
+  open_ws s3 a = seq (next_wire s) (length (open_ws s a)) /\
+  open_ws s3 b = seq (next_wire s + length (open_ws s a)) (length (open_ws s b)) /\
+  (forall k, k <> a -> k <> b -> open_ws s3 k = open_ws s k) /\
+  atom_wires s3 ga = outw ++ inw /\
+  forall rho, net_value zero one add mul s3 tbl rho
+              = gate_action R zero add mul (wdim s) (tbl ga) outw inw (net_value zero one add mul s tbl) rho.
+Proof. exact two_site_gate_value_stmt. Qed.
+Print Assumptions C08_two_site_gate_value.
+
+(* the usual case, one physical leg per node, written out: new state [x, y] = SUM_{ja, jb} G[x, y, ja, jb] * old state [ja, jb] *)
+Theorem C08_two_site_gate_value_one_leg : forall (R : Type) (zero one : R) (add mul : R -> R -> R), comm_semiring zero one add mul ->
+  forall (tbl : nat -> list nat -> R) (contr : id) (s : store) (a b : id) (g : tgate) (s1 s2 s3 : store) (wa wb : wire),
+  wfsb s = true -> aget contr (nodes s) = None -> two_site_stages contr s a b g = Some (s1, s2, s3) ->
+  def_holds zero one add mul s3 tbl (last (defs s3) dflt_def) ->
+  open_ws s a = [wa] -> open_ws s b = [wb] ->
+  open_ws s3 a = [next_wire s] /\ open_ws s3 b = [S (next_wire s)] /\
+  forall rho, net_value zero one add mul s3 tbl rho
+              = sum_upto R zero add (wdim s wa) (fun ja => sum_upto R zero add (wdim s wb) (fun jb =>
+                  mul (tbl (next_atom s) [rho (next_wire s); rho (S (next_wire s)); ja; jb])
+                      (net_value zero one add mul s tbl (upd (upd rho wa ja) wb jb)))).
+Proof. exact two_site_gate_value_1_stmt. Qed.
+Print Assumptions C08_two_site_gate_value_one_leg.
+
+Theorem C08_single_site_gate_value_one_leg : forall (R : Type) (zero one : R) (add mul : R -> R -> R), comm_semiring zero one add mul ->
+  forall (tbl : nat -> list nat -> R) (s : store) (a : id) (gshape : list nat) (s' : store) (w : wire),
+  wfsb s = true -> absorb_open s a gshape = Some s' -> open_ws s a = [w] ->
+  open_ws s' a = [next_wire s] /\
+  forall rho, net_value zero one add mul s' tbl rho
+              = sum_upto R zero add (wdim s w)
+                  (fun j => mul (tbl (next_atom s) [rho (next_wire s); j]) (net_value zero one add mul s tbl (upd rho w j))).
+Proof. exact single_site_gate_value_1_stmt. Qed.
+Print Assumptions C08_single_site_gate_value_one_leg.
+
+(* a SWAP is the two-site gate whose tensor is swap_gate(d) reshaped (C08_swap_tensor_entries): the network after
+   it, read at indices (x, y) of the pair, is the network before read at (y, x) *)
+Theorem C08_swap_gate_value : forall (R : Type) (zero one : R) (add mul : R -> R -> R), comm_semiring zero one add mul ->
+  forall (tbl : nat -> list nat -> R) (contr : id) (s : store) (a b : id) (g : tgate) (s1 s2 s3 : store) (wa wb : wire) (d : nat),
+  wfsb s = true -> aget contr (nodes s) = None -> two_site_stages contr s a b g = Some (s1, s2, s3) ->
+  def_holds zero one add mul s3 tbl (last (defs s3) dflt_def) ->
+  open_ws s a = [wa] -> open_ws s b = [wb] -> wdim s wa = d -> wdim s wb = d ->
+  (forall o1 o2 j1 j2, tbl (next_atom s) [o1; o2; j1; j2] = if swap_tensor_entry d o1 o2 j1 j2 then one else zero) ->
+  forall rho, rho (next_wire s) < d -> rho (S (next_wire s)) < d ->
+    net_value zero one add mul s3 tbl rho
+    = net_value zero one add mul s tbl (upd (upd rho wa (rho (S (next_wire s)))) wb (rho (next_wire s))).
+Proof. exact swap_gate_value_stmt. Qed.
+Print Assumptions C08_swap_gate_value.
+
+(* one TEBD step (several steps: the gate list repeated, C08_tebd_steps_repeat): the value of the network after the
+   step is the composition of the gate actions in list order (C08_tebd_step_ordered), applied to the value before.
+   act_on tbl dim V {ga_atom; ga_out; ga_in} = gate_action dim (tbl ga_atom) ga_out ga_in V.
+   track_acts computes the actions from the initial wire state (next fresh wire / atom, open wires of every node) and
+   the identifier lists of the gates alone: a single-site gate allocates its output wires and one atom, a two-site
+   gate its output wires, the bond wire and three atoms (gate, U, S.Vh); the outputs become the open wires of the
+   node(s).  tebd_contracts: the kernel contract (def_holds on the newest record) after every two-site gate *)
+Theorem C08_tebd_step_value : forall (R : Type) (zero one : R) (add mul : R -> R -> R), comm_semiring zero one add mul ->
+  forall (tbl : nat -> list nat -> R) (contr : id) (gs : list tgate) (s s' : store),
+  wfsb s = true -> aget contr (nodes s) = None -> tebd_step contr s gs = Some s' ->
+  tebd_contracts R zero one add mul tbl contr s gs ->
+  wfsb s' = true /\ aget contr (nodes s') = None /\
+  tebd_acts contr s gs = track_acts (next_wire s) (next_atom s) (open_ws s) (map t_ids gs) /\
+  forall rho, net_value zero one add mul s' tbl rho
+              = fold_left (act_on R zero add mul tbl (wdim s'))
+                  (track_acts (next_wire s) (next_atom s) (open_ws s) (map t_ids gs)) (net_value zero one add mul s tbl) rho.
+Proof. exact tebd_step_value_stmt. Qed.
+Print Assumptions C08_tebd_step_value.
+
+(* non-vacuity over Z: nodes 0 - 1 with one physical leg each, a two-site gate G on (0, 1) then a single-site gate H
+   on 1; atoms 0, 1 the node tensors, 2 = G, (3, 4) = a valid factorisation of the gate-applied pair (U := G.psi,
+   S.Vh := identity: the kernel contract is proved for every assignment), 5 = H.  The hypotheses of
+   C08_tebd_step_value hold, its conclusion is the two actions below, and the tensor the final network denotes is
+   the dense  H . G . psi  entry by entry *)
+Example C08_example_value_hyps :
+  wfsb exg_s0 = true /\ aget 99 (nodes exg_s0) = None /\
+  tebd_step 99 exg_s0 [exg_g1; exg_g2] = Some exg_s2 /\
+  tebd_contracts Z 0%Z 1%Z Z.add Z.mul exg_tbl 99 exg_s0 [exg_g1; exg_g2].
+Proof. exact exg_hyps. Qed.
+Print Assumptions C08_example_value_hyps.
+
+Example C08_example_value_conclusion : forall rho,
+  net_value 0%Z 1%Z Z.add Z.mul exg_s2 exg_tbl rho
+  = fold_left (act_on Z 0%Z Z.add Z.mul exg_tbl (wdim exg_s2))
+      [ {| ga_atom := 2; ga_out := [4; 5]; ga_in := [1; 3] |}; {| ga_atom := 5; ga_out := [7]; ga_in := [5] |} ]
+      (net_value 0%Z 1%Z Z.add Z.mul exg_s0 exg_tbl) rho.
+Proof. exact exg_conclusion. Qed.
+Print Assumptions C08_example_value_conclusion.
+
+Example C08_example_value_dense :
+  forallb (fun x => forallb (fun y =>
+     Z.eqb (net_entry 0%Z 1%Z Z.add Z.mul exg_s2 exg_tbl (fun _ => 0) [x; y])
+           (exg_sum2 (fun y' => exg_H y y' * exg_M x y')%Z)) [0; 1]) [0; 1] = true.
+Proof. vm_compute. reflexivity. Qed.
+Print Assumptions C08_example_value_dense.
